@@ -8,7 +8,9 @@ from common import ints
 
 META = {
     "property": "C09",
-    "proof_modules": ["PyodaProofs.C09"],
+    "proof_modules": ["PyodaProofs.C09", "PyodaProofs.C09Instances", "PyodaProofs.C09Generic", "PyodaProofs.C09Between",
+                      "PyodaProofs.C09DateTime", "PyodaProofs.C09Badi", "PyodaProofs.C09Hebrew", "PyodaProofs.C09HebrewMonths",
+                      "PyodaProofs.C09All", "PyodaProofs.C09MonthStart", "PyodaProofs.C09Maximal"],
     "drivers": ["drv_datearith"],
     "theorems": [
         "Pyoda.C09.plusDays_exact", "Pyoda.C09.plusWeeks_exact", "Pyoda.C09.fastPath_eq_slowPath",
@@ -20,16 +22,31 @@ META = {
         "Pyoda.C09.timeComponents_exact", "Pyoda.C09.betweenTimes_spec", "Pyoda.C09.normalize_preserves_total",
         "Pyoda.C09.toDuration_total", "Pyoda.C09.yearLen_gregorian", "Pyoda.C09.yearLen_julian", "Pyoda.C09.yearLen_coptic",
         "Pyoda.C09.regular_gregorian", "Pyoda.C09.regular_julian", "Pyoda.C09.regular_coptic",
+        "Pyoda.C09.yearLen_islamic", "Pyoda.C09.yearLen_persian", "Pyoda.C09.yearLen_umAlQura", "Pyoda.C09.yearLen_badi",
+        "Pyoda.C09.yearLenCheck_sound", "Pyoda.C09.regular_islamic_all", "Pyoda.C09.regular_persianSimple",
+        "Pyoda.C09.regular_persianArithmetic", "Pyoda.C09.regular_persianAstronomical", "Pyoda.C09.regular_umAlQura",
+        "Pyoda.C09.coarse_law_at", "Pyoda.C09.yearsField_unit_of_setYear",
+        "Pyoda.C09.badi_monthsField_law", "Pyoda.C09.badi_yearsField_law", "Pyoda.C09.badi_addMonths_valid", "Pyoda.C09.badi_setYear_valid",
+        "Pyoda.C09.dateLaws_regular", "Pyoda.C09.betweenDates_laws", "Pyoda.C09.betweenYearMonths_laws", "Pyoda.C09.monthStart_regular",
+        "Pyoda.C09.adjustedEnd_spec", "Pyoda.C09.betweenDateTimes_core", "Pyoda.C09.betweenDateTimes_laws",
+        "Pyoda.C09.hebSetYear_scr", "Pyoda.C09.heb_setYear_valid", "Pyoda.C09.heb_yearsField_law", "Pyoda.C09.heb_addMonths_spec",
+        "Pyoda.C09.heb_addMonths_valid", "Pyoda.C09.heb_probe_spec", "Pyoda.C09.heb_estimate_close", "Pyoda.C09.heb_monthsBetween_value",
+        "Pyoda.C09.heb_months_law_max", "Pyoda.C09.heb_monthsField_law", "Pyoda.C09.dateLaws_hebrew",
+        "Pyoda.C09.dateLaws_badi", "Pyoda.C09.dateLaws_all", "Pyoda.C09.between_dates_all", "Pyoda.C09.plusDays_exact_all",
+        "Pyoda.C09.plusMonths_valid_all", "Pyoda.C09.plusYears_valid_all",
+        "Pyoda.C09.monthStart_badi", "Pyoda.C09.monthStart_hebrew", "Pyoda.C09.monthStart_all",
+        "Pyoda.C09.coarse_max_at", "Pyoda.C09.yearsBetween_maximal_hebrew", "Pyoda.C09.yearsBetween_maximal_badi",
+        "Pyoda.C09.badi_addMonths_key", "Pyoda.C09.monthsBetween_maximal_badi",
     ],
     "trusted_base": [
-        "calendar tables enter the theorems through C01's well-formedness predicate WF (proved per calendar in C01*)",
+        "calendar tables enter the theorems through C01's well-formedness predicate WF: symbolic C01 instances for ISO/Gregorian, Julian, Coptic, the 8 Islamic calendars, Persian simple and arithmetic; for Hebrew civil/scriptural, Persian astronomical, Um Al Qura and Badi the hypothesis structure Pyoda.C09.Evaluated (wfCheck = true via C01's wfCheck_sound, plus yearLenCheck = true for the two Hebrew calendars) is discharged by EVALUATION on the compiled driver on every run (ops cal.wf 4|5|8|17|18, date.wf 4|5; oracle 'evaluated-hypotheses') - the Lean compiler is trusted for that step",
         "Decimal-based truncating division is exact below 10^27 (sampled by C03's prelude suite); amounts beyond are outside the model (!dom)",
+        "LocalDateTime + Period reaches position posDT(start date + date part, start time) + time total: the carry arithmetic of LocalDateTime.plus is C10's subject; C09 states the between laws on positions of the local time line",
     ],
     "partial": [
-        "between_bounded / between_hits_end / between_one_sign / between_units_subset / yearsBetween_maximal / monthsBetween_maximal are proved for Period.between(LocalDate, LocalDate) in every regular-family calendar (hypothesis RegularCal: WF from C01, 12 or 13 months in every year, packed comparison; instantiated for ISO/Gregorian, Julian, Coptic); for Hebrew and Badi the years/months units enter through the generic FieldLaw/CoarseUnit theorems as hypotheses and are decided by correspondence + oracle",
-        "plusDays_exact needs every year to have at least 299 days (YearLen; proved for Gregorian, Julian, Coptic, immediate for the others from their year-length definitions once their WF instances exist)",
-        "Period.between on LocalDateTime and YearMonth: model + correspondence + oracle only (the date part reuses dateComponents, the time part timeComponents_exact)",
-        "Hebrew _months_between (search loops) and Hebrew _set_year: model + correspondence + oracle; addMonths_hebrew_spec is proved in full (235-month cycle)",
+        "all Period.between laws (units asked for, one sign, bounded, hits end) are theorems for LocalDate, YearMonth and LocalDateTime operands in all 19 calendars (dateLaws_all, monthStart_all + betweenDates_laws, betweenYearMonths_laws, betweenDateTimes_laws) and for LocalTime (betweenTimes_spec); single-unit maximality is proved for days/weeks (every calendar), years and months of the regular family (yearsBetween_maximal, monthsBetween_maximal with the RegularCal instances of all 15 regular calendars), Hebrew (heb_months_law_max, yearsBetween_maximal_hebrew) and Badi (monthsBetween_maximal_badi, yearsBetween_maximal_badi); time-unit maximality for LocalDateTime/LocalTime is the remainder bound of timeComponents_exact/stepTime_spec",
+        "plus_months / plus_years never return an invalid date in any calendar: plusMonths_valid_all, plusYears_valid_all; plus_days / plus_weeks exact in every calendar: plusDays_exact_all",
+        "the theorems cover the model with the intended (repaired) behaviour of the five defects found; the repairs are committed to /repo and tied to the model by correspondence",
         "periods whose total reaches 10^27 ns and amounts of 10^27 months or more are outside the model (Decimal-based division no longer exact there)",
     ],
     "rule": "start/end pairs biased to month ends, leap days, Adar/Adar II, Ayyam-i-Ha, year and range edges; amounts at +-299/300/301 days and across the 19/30/33/400-year cycles; all valid unit subsets per operand type; distinct = distinct op line; non-trivial = every op",
@@ -824,12 +841,36 @@ def neighbours(t):
     return []
 
 
+EVALUATED = ["cal.wf 4", "cal.wf 5", "cal.wf 8", "cal.wf 17", "cal.wf 18", "date.wf 4", "date.wf 5"]
+
+
 def run(ctx):
+    # hypotheses of Pyoda.C09.Evaluated, evaluated on the compiled driver while the correspondence runs
+    # (cal.wf 4|5 walk every day of 9999 Hebrew years: about 10 s each, on their own pinned processes)
+    from concurrent.futures import ThreadPoolExecutor
+    import common
+    pool = ThreadPoolExecutor(max_workers=3)
+    futures = {op: pool.submit(common.model_eval, [op], META["drivers"][0]) for op in EVALUATED[:2]}
+    futures["rest"] = pool.submit(common.model_eval, EVALUATED[2:] + [f"date.wf {o}" for o in range(19)], META["drivers"][0])
     ctx.correspond("datearith.plus", gen_plus_ops(ctx), impl, oracle=oracle, neighbours=neighbours)
-    ctx.correspond("datearith.between", gen_between_ops(ctx), impl, oracle=oracle)
+    ctx.correspond("datearith.between", gen_between_ops(ctx), impl, oracle=oracle, neighbours=neighbours)
     ctx.correspond("datearith.period", gen_period_ops(ctx), impl, oracle=oracle)
     ctx.check_cases("month-order", [(o, y) for o in ordinals() for y in sorted({info(o)[1], info(o)[2], gen_year(ctx.rng, o), gen_year(ctx.rng, o)})],
                     month_order_case)
+    replies = {}
+    rest_ops = EVALUATED[2:] + [f"date.wf {o}" for o in range(19)]
+    for op, r in zip(rest_ops, futures["rest"].result()):
+        replies[op] = r
+    for op in EVALUATED[:2]:
+        replies[op] = futures[op].result()[0]
+    pool.shutdown()
+
+    def evaluated_case(op):
+        if replies.get(op) != "1":
+            return fail("evaluated-hypothesis-false", f"driver op {op} replied {replies.get(op)!r}: a hypothesis of the C09 theorems "
+                        "(calendar well-formedness / minimum year length) does not hold for the model's calendar description")
+        return None
+    ctx.check_cases("evaluated-hypotheses", sorted(replies), evaluated_case, exhaustive=True)
     ctx.note("calendars", len(ordinals()))
 
 
